@@ -113,7 +113,8 @@ class _Probe:
         v = getattr(self._inner, name)
         if callable(v) and not isinstance(v, type):
             def logged(*a, _v=v, _n=name, **kw):
-                self._calls.append(_n)
+                if _n != "get_statistics":         # a read-only report: a wrapper may look
+                    self._calls.append(_n)
                 return _v(*a, **kw)
             return logged
         return v
